@@ -16,7 +16,7 @@ from typing_extensions import override
 
 from calgebra.interval import Interval
 from calgebra.mutable import MutableTimeline, WriteResult
-from calgebra.recurrence import RecurringPattern
+from calgebra.recurrence import RecurringPattern, _anchor_wall_clock
 
 
 def _interval_sort_key(interval: Interval) -> tuple[int | float, int | float]:
@@ -237,14 +237,9 @@ class MemoryTimeline(MutableTimeline[Interval]):
         start: datetime | int
         tz: str | None
         if pattern.anchor_timestamp is not None:
-            start = datetime.fromtimestamp(pattern.anchor_timestamp, tz=pattern.zone)
-            wall = start.replace(
-                hour=pattern.start_seconds // 3600,
-                minute=pattern.start_seconds % 3600 // 60,
-                second=pattern.start_seconds % 60,
+            start = _anchor_wall_clock(
+                pattern.anchor_timestamp, pattern.start_seconds, pattern.zone
             )
-            if int(wall.timestamp()) == pattern.anchor_timestamp:
-                start = wall
             tz = None
         else:
             start = pattern.start_seconds
